@@ -969,6 +969,15 @@ fn run_eqv(fields: &[&str], out: &mut impl Write) {
         if !results[2 * i].is_subset(graph.unit_colored_vertices()) {
             bad.push(format!("{} leaves the unit set", formulas[2 * i]));
         }
+        // the raw result of a closed formula does not depend on the spare copies
+        let extras = graph.symbolic_context().all_extra_state_variables().clone();
+        for r in [&results[2 * i], &results[2 * i + 1]] {
+            let support = r.as_bdd().support_set();
+            if extras.iter().any(|v| support.contains(v)) {
+                bad.push(format!("{} depends on a spare variable", formulas[2 * i]));
+                break;
+            }
+        }
     }
     if bad.is_empty() {
         writeln!(out, "{id} OK {} pairs on {} variables", results.len() / 2, graph.num_vars()).unwrap();
